@@ -182,3 +182,40 @@ Definition eq_skeleton (d : dialect) (col : str) (v : value) : list token :=
 (* ((col) IN (lit, lit, ...)) *)
 Definition in_skeleton (d : dialect) (col : str) (vs : list value) : list token :=
   [TPunct c_lp; TPunct c_lp; TWord col; TPunct c_rp; TWord s_IN] ++ lit_tokens d (VSeq vs) ++ [TPunct c_rp].
+
+(* ---------------------------------------------------------------- the members of a rendered list *)
+(* func.NAME(v1, ..., vn) -- sqlbuilder.SQLCall.__sqlrepr__: the rendered name followed by the rendered argument tuple *)
+Definition call_sql (d : dialect) (name : str) (vs : list value) : option str :=
+  obind (render d (VSeq vs)) (fun r => Some (name ++ r)).
+Definition call_skeleton (d : dialect) (name : str) (vs : list value) : list token :=
+  TWord name :: lit_tokens d (VSeq vs).
+
+Definition is_punct (c : ch) (t : token) : bool := match t with TPunct x => x =? c | _ => false end.
+
+(* depth of parentheses after token t *)
+Definition depth_after (depth : nat) (t : token) : nat :=
+  if is_punct c_lp t then S depth else if is_punct c_rp t then pred depth else depth.
+
+(* cut a token list at the commas that are outside every parenthesis (depth 0);
+   the result always has a first (possibly empty) member *)
+Fixpoint split_top (depth : nat) (l : list token) : list (list token) :=
+  match l with
+  | [] => [[]]
+  | t :: r =>
+      if is_punct c_comma t && Nat.eqb depth 0 then [] :: split_top 0 r
+      else match split_top (depth_after depth t) r with
+           | x :: xs => (t :: x) :: xs
+           | [] => [[t]]
+           end
+  end.
+
+(* the members of a parenthesised list `(` m1 `,` m2 ... `)`: None when the tokens are not
+   enclosed in one pair of parentheses; `()` has no member *)
+Definition members (l : list token) : option (list (list token)) :=
+  match l with
+  | t :: r =>
+      if is_punct c_lp t && is_punct c_rp (last r t) then
+        Some (match removelast r with [] => [] | body => split_top 0 body end)
+      else None
+  | [] => None
+  end.
